@@ -36,6 +36,9 @@ def scenarios():
         ("closer-thread", [(1, R.encode(T, b"x")), (9, "eof")], {}, 3),
         ("close-from-on_message", [(1, R.encode(T, b"x")), (9, "eof")], {}, "on_message"),
         ("ping-timeout", [(1, R.encode(T, b"x"))], {"ping_interval": 3, "ping_timeout": 2}, None),
+        # the peer resets the connection (RST): recv fails with ECONNRESET and the kernel answers the library's shutdown() with ENOTCONN
+        ("reset", [(1, R.encode(T, b"x")), (3, "rst")], {}, None),
+        ("reset-then-reconnect", [(1, R.encode(T, b"x")), (3, "rst")], {"reconnect": 2}, None),
     ]
 
 
@@ -55,8 +58,11 @@ def norm(trace):
 
 
 def run_sim(script, run_kwargs, closer):
-    sc = [(t, "eof" if d == "eof" else "data", b"" if d == "eof" else d) for t, d in script]
-    spec = {"url": "ws://h.example/", "callbacks": list(CBS), "attempts": [lambda: tnet.ServerPeer(script=sc, on_ping=None, close_latency=0.25)],
+    sc = [(t, d if d in ("eof", "rst") else "data", b"" if d in ("eof", "rst") else d) for t, d in script]
+    attempts = [lambda: tnet.ServerPeer(script=sc, on_ping=None, close_latency=0.25)]
+    if run_kwargs.get("reconnect"):
+        attempts.append(lambda: tnet.ServerPeer(script=[(1, "data", R.encode(R.TEXT, b"again")), (2, "data", R.encode(R.CLOSE, b"\x03\xe8"))], on_ping=None, close_latency=0.25))
+    spec = {"url": "ws://h.example/", "callbacks": list(CBS) + (["on_reconnect"] if run_kwargs.get("reconnect") else []), "attempts": attempts,
             "run_kwargs": dict(run_kwargs), "horizon": 200.0}
     if isinstance(closer, int):
         spec["closer"] = {"delay": float(closer)}
@@ -70,9 +76,27 @@ def run_sim(script, run_kwargs, closer):
 def run_real(script, run_kwargs, closer):
     lst = socket.socket()
     lst.bind(("127.0.0.1", 0))
-    lst.listen(1)
+    lst.listen(2)
     port = lst.getsockname()[1]
     done = threading.Event()
+
+    def second_connection():
+        c, _ = lst.accept()
+        c.settimeout(5)
+        buf = b""
+        while b"\r\n\r\n" not in buf:
+            buf += c.recv(4096)
+        c.sendall(HS.response_101(HS.parse_request(buf)["key"]))
+        time.sleep(1 * UNIT)
+        c.sendall(R.encode(R.TEXT, b"again"))
+        time.sleep(1 * UNIT)
+        c.sendall(R.encode(R.CLOSE, b"\x03\xe8"))
+        try:
+            c.settimeout(1)
+            c.recv(100)
+        except OSError:
+            pass
+        c.close()
 
     def server():
         try:
@@ -89,6 +113,13 @@ def run_real(script, run_kwargs, closer):
                     time.sleep(dt)
                 if d == "eof":
                     break
+                if d == "rst":
+                    import struct
+                    c.setsockopt(socket.SOL_SOCKET, socket.SO_LINGER, struct.pack("ii", 1, 0))
+                    c.close()
+                    if run_kwargs.get("reconnect"):
+                        second_connection()
+                    return
                 c.sendall(d)
             # answer a client close frame like the simulated peer does (reply + eof), then linger
             c.settimeout(0.2)
@@ -128,7 +159,8 @@ def run_real(script, run_kwargs, closer):
                 app.close()
         return f
     kw = {k: v * UNIT for k, v in run_kwargs.items()}
-    app = lib.websocket.WebSocketApp("ws://127.0.0.1:%d/" % port, **{n: cb(n) for n in CBS})
+    names = list(CBS) + (["on_reconnect"] if run_kwargs.get("reconnect") else [])
+    app = lib.websocket.WebSocketApp("ws://127.0.0.1:%d/" % port, **{n: cb(n) for n in names})
     if isinstance(closer, int):
         threading.Timer(closer * UNIT, app.close).start()
     ret = app.run_forever(**kw)
